@@ -254,6 +254,28 @@ func runC07(r *run) {
 				}
 			}
 		}
+		if g.chance(1, 3) {
+			// a record under the other inherit flag, inside a save / modify / restore scope: what was collected there
+			// does not outlive the scope
+			var restore func()
+			if inherit {
+				restore = slog.SaveFlagsAndMod(0, slog.LattrsR)
+			} else {
+				restore = slog.SaveFlagsAndMod(slog.LattrsR)
+			}
+			cur.InfoContext(ctx, "warm-up under the other inherit flag")
+			restore()
+			rec.take()
+		}
+		if depth >= 2 && !sharedCase && g.chance(1, 3) {
+			// a record first, then one more attribute on an ancestor: the next record knows about it
+			cur.InfoContext(ctx, "warm-up before an ancestor gets another attribute")
+			rec.take()
+			d := g.intn(depth - 1)
+			e := kvp{g.pick(keyPool), next()}
+			chainLoggers[d].Set(e.k, e.v)
+			chain[d] = append(chain[d], e)
+		}
 		nilCtx := g.chance(1, 10) && i >= 4
 		// call-site arguments
 		na := g.intn(20)
